@@ -439,48 +439,101 @@ Proof.
   rewrite He in He'. inversion He'; subst. rewrite Hd in Hd'. inversion Hd'; subst. congruence.
 Qed.
 
-(* ghost: slot i was logged in by some event of the trace, and not allocated again afterwards *)
-Inductive authed_by (c : cfg) (st0 : sstate) : list event -> nat -> Prop :=
-| AB_login es e i : login_event c (run c st0 es) e i -> authed_by c st0 (es ++ [e]) i
-| AB_keep es e i : authed_by c st0 es i -> ~ alloc_event c (run c st0 es) e i -> authed_by c st0 (es ++ [e]) i.
+(* ghost: P held for slot i at some event of the trace, and slot i was not allocated again
+   afterwards *)
+Inductive since (c : cfg) (st0 : sstate) (P : sstate -> event -> nat -> Prop) : list event -> nat -> Prop :=
+| S_now es e i : P (run c st0 es) e i -> since c st0 P (es ++ [e]) i
+| S_keep es e i : since c st0 P es i -> ~ alloc_event c (run c st0 es) e i -> since c st0 P (es ++ [e]) i.
 
 Theorem auth_trace c ips es i :
-  u_auth (getu (run c (init_state ips) es) i) = true -> authed_by c (init_state ips) es i.
+  u_auth (getu (run c (init_state ips) es) i) = true -> since c (init_state ips) (login_event c) es i.
 Proof.
   induction es as [|e es IH] using rev_ind.
   - simpl. rewrite getu_init. discriminate.
   - rewrite run_snoc. set (st := run c (init_state ips) es) in *.
     pose proof (step_pair c st e) as Hs. intros T.
     destruct (u_auth (getu st i)) eqn:F.
-    + apply AB_keep; [apply IH; reflexivity|]. intros Ha.
+    + apply S_keep; [apply IH; reflexivity|]. intros Ha.
       destruct (alloc_clears _ _ _ _ _ _ Hs Ha) as (now & rnd & q & _ & _ & _ & Hf & _). congruence.
-    + apply AB_login. eapply auth_only_by_login; eassumption.
+    + apply S_now. eapply auth_only_by_login; eassumption.
 Qed.
 
-(* unfolding the ghost: the login event, the seed it answered, and no allocation since *)
-Theorem authed_by_unfold c st0 es i : authed_by c st0 es i ->
-  exists es1 e es2, es = es1 ++ e :: es2 /\ login_event c (run c st0 es1) e i /\
-    (forall a e' b, es2 = a ++ e' :: b -> ~ alloc_event c (run c st0 (es1 ++ e :: a)) e' i) /\
-    u_seed (getu (run c st0 es) i) = u_seed (getu (run c st0 es1) i).
+Theorem authraw_trace c ips es i :
+  u_auth_raw (getu (run c (init_state ips) es) i) = true -> since c (init_state ips) (rawlogin_event c) es i.
+Proof.
+  induction es as [|e es IH] using rev_ind.
+  - simpl. rewrite getu_init. discriminate.
+  - rewrite run_snoc. set (st := run c (init_state ips) es) in *.
+    pose proof (step_pair c st e) as Hs. intros T.
+    destruct (u_auth_raw (getu st i)) eqn:F.
+    + apply S_keep; [apply IH; reflexivity|]. intros Ha.
+      destruct (alloc_clears _ _ _ _ _ _ Hs Ha) as (now & rnd & q & _ & _ & _ & _ & Hf & _). congruence.
+    + apply S_now. eapply authraw_only_by_raw_login; eassumption.
+Qed.
+
+(* raw-mode authentication is never held without the DNS-mode one *)
+Theorem authraw_implies_auth c ips es i :
+  u_auth_raw (getu (run c (init_state ips) es) i) = true -> u_auth (getu (run c (init_state ips) es) i) = true.
+Proof.
+  induction es as [|e es IH] using rev_ind.
+  - simpl. rewrite getu_init. discriminate.
+  - rewrite run_snoc. set (st := run c (init_state ips) es) in *.
+    pose proof (step_pair c st e) as Hs.
+    destruct (step_slot_change _ _ _ _ _ Hs) as [_ S]. specialize (S i).
+    destruct S as [Hsame | now rnd q He Ha Hu | now rnd q He Hl Hu | Ho Hi | now from pk He Hr Hu].
+    + apply sec_fields in Hsame. destruct Hsame as (_ & H2 & H3 & _). rewrite H2, H3. exact IH.
+    + rewrite Hu. discriminate.
+    + rewrite Hu. reflexivity.
+    + unfold ident in Hi. inversion Hi as [[H1 H2 H3 H4 H5 H6 H7 H8 H9]]. rewrite H2, H3. exact IH.
+    + rewrite Hu. intros _. destruct Hr as (now' & from' & pk' & _ & _ & (_ & _ & Hau & _)). exact Hau.
+Qed.
+
+Lemma seed_stable c st es i :
+  (forall a e' b, es = a ++ e' :: b -> ~ alloc_event c (run c st a) e' i) ->
+  u_seed (getu (run c st es) i) = u_seed (getu st i).
+Proof.
+  induction es as [|e es IH] using rev_ind; intros Hn; [reflexivity|].
+  rewrite run_snoc. rewrite <- IH.
+  - pose proof (step_pair c (run c st es) e) as Hs.
+    destruct (N.eq_dec (u_seed (getu (fst (step c (run c st es) e)) i)) (u_seed (getu (run c st es) i))) as [E|E];
+      [exact E|exfalso].
+    apply (Hn es e []); [reflexivity|]. eapply seed_only_by_alloc; [exact Hs|right; exact E].
+  - intros a e' b Hb. apply (Hn a e' (b ++ [e])). rewrite Hb, <- app_assoc. reflexivity.
+Qed.
+
+(* unfolding the ghost: the event, and no allocation since *)
+Theorem since_unfold c st0 P es i : since c st0 P es i ->
+  exists es1 e es2, es = es1 ++ e :: es2 /\ P (run c st0 es1) e i /\
+    (forall a e' b, es2 = a ++ e' :: b -> ~ alloc_event c (run c st0 (es1 ++ e :: a)) e' i).
 Proof.
   induction 1 as [es e i Hl | es e i Hab IH Hna].
-  - exists es, e, []. split; [reflexivity|]. split; [exact Hl|]. split.
-    + intros a e' b Hb. destruct a; discriminate.
-    + rewrite run_snoc. pose proof (step_pair c (run c st0 es) e) as Hs.
-      destruct (N.eq_dec (u_seed (getu (fst (step c (run c st0 es) e)) i)) (u_seed (getu (run c st0 es) i))) as [E|E];
-        [exact E|exfalso].
-      eapply login_not_alloc; [exact Hl|]. eapply seed_only_by_alloc; [exact Hs|right; exact E].
-  - destruct IH as (es1 & e1 & es2 & -> & Hl & Hn & Hseed).
-    exists es1, e1, (es2 ++ [e]). split; [rewrite <- app_assoc; reflexivity|]. split; [exact Hl|]. split.
-    + intros a e' b Hb.
-      destruct (snoc_split es2 e a e' b Hb) as [(-> & -> & ->)|(b' & -> & ->)].
-      * exact Hna.
-      * apply (Hn a e' b'). reflexivity.
-    + rewrite run_snoc. rewrite <- Hseed.
-      pose proof (step_pair c (run c st0 (es1 ++ e1 :: es2)) e) as Hs.
-      destruct (N.eq_dec (u_seed (getu (fst (step c (run c st0 (es1 ++ e1 :: es2)) e)) i))
-                          (u_seed (getu (run c st0 (es1 ++ e1 :: es2)) i))) as [E|E]; [exact E|].
-      exfalso. apply Hna. eapply seed_only_by_alloc; [exact Hs|right; exact E].
+  - exists es, e, []. split; [reflexivity|]. split; [exact Hl|].
+    intros a e' b Hb. destruct a; discriminate.
+  - destruct IH as (es1 & e1 & es2 & -> & Hl & Hn).
+    exists es1, e1, (es2 ++ [e]). split; [rewrite <- app_assoc; reflexivity|]. split; [exact Hl|].
+    intros a e' b Hb.
+    destruct (snoc_split es2 e a e' b Hb) as [(-> & -> & ->)|(b' & -> & ->)].
+    + exact Hna.
+    + apply (Hn a e' b'). reflexivity.
+Qed.
+
+(* the challenge a logged-in session answered is the one it still holds *)
+Theorem auth_trace_seed c ips es i :
+  u_auth (getu (run c (init_state ips) es) i) = true ->
+  exists es1 e es2, es = es1 ++ e :: es2 /\ login_event c (run c (init_state ips) es1) e i /\
+    (forall a e' b, es2 = a ++ e' :: b -> ~ alloc_event c (run c (init_state ips) (es1 ++ e :: a)) e' i) /\
+    u_seed (getu (run c (init_state ips) es) i) = u_seed (getu (run c (init_state ips) es1) i).
+Proof.
+  intros T. apply auth_trace in T. apply since_unfold in T.
+  destruct T as (es1 & e & es2 & -> & Hl & Hn). exists es1, e, es2.
+  split; [reflexivity|]. split; [exact Hl|]. split; [exact Hn|].
+  change (es1 ++ e :: es2) with (es1 ++ [e] ++ es2). rewrite app_assoc, run_app.
+  rewrite seed_stable.
+  - rewrite run_snoc. pose proof (step_pair c (run c (init_state ips) es1) e) as Hs.
+    destruct (N.eq_dec (u_seed (getu (fst (step c (run c (init_state ips) es1) e)) i))
+                        (u_seed (getu (run c (init_state ips) es1) i))) as [E|E]; [exact E|exfalso].
+    eapply login_not_alloc; [exact Hl|]. eapply seed_only_by_alloc; [exact Hs|right; exact E].
+  - intros a e' b Hb. rewrite <- run_app, <- app_assoc. apply (Hn a e' b Hb).
 Qed.
 
 End WithOracles.
